@@ -222,6 +222,11 @@ def run(ctx, model):
     ctx.parallel(cfgs, lambda c, cfg: e2e.compare(c, model, "R-E2E", *cfg), min_items=2)
     ctx.floor("R-E2E", ctx.rule_counts.get("R-E2E", 0), len(cfgs), "end-to-end comparisons")
 
+    # ---------------- R-PROCESS: the same configurations in one long-lived process, backwards and forwards
+    pcfgs = cfgs + [("Decimal", [0, 9, 1, 3]), ("Integer", [0, 25]), ("NegativeDecimal", [0, 30, 1, None]), ("PositiveInteger", [3, 7]), ("Integer", [0.0, 25]), ("Decimal", [0, 9, 1.0, 3]), ("Decimal", [False, 9, True, 3]), ("Integer", [25, 0])]
+    e2e.process_order(ctx, model, "R-PROCESS", pcfgs)
+    ctx.floor("R-PROCESS", ctx.rule_counts.get("R-PROCESS", 0), len(pcfgs), "configurations replayed in one process")
+
 
 
 def _chars(t):
